@@ -100,6 +100,16 @@ class C16(Engine):
 
     def prepare(self):
         P = self.pools
+        # channel edge cases: contents whose ends differ in white space (argv strings vs file reads)
+        rng0 = core.derive_rng("c16.edge", self.seed, 0)
+        srcs = [f for f in sorted(P.files) if P.meta[f]["group"] in ("gen", "special_clean", "special_erroneous", "viol")]
+        self.edge_ids = []
+        for b in rng0.sample(srcs, min(4 if self.tier == "quick" else 40, len(srcs))):
+            c = P.files[b]["content"]
+            for tag, c2 in (("+sp", c + " "), ("+tab", c + "\t"), ("-nl", c.rstrip("\n")), ("+nl", c + "\n"), ("sp+", " " + c)):
+                fid = P.add("edge", P.files[b]["name"], c2, f"{P.meta[b]['origin']}{tag}")
+                self.edge_ids.append(fid)
+        P.register()
         P.measure(self.pool)
         q = self.tier == "quick"
         rng = core.derive_rng("c16.files", self.seed, 0)
@@ -113,7 +123,7 @@ class C16(Engine):
         withdef = emits[: max(6, len(emits) // 2 if not q else 8)] + hasdef
         rng.shuffle(cands)
         n = 48 if q else 1200
-        chosen = withdef[: n // 3]
+        chosen = withdef[: n // 3] + [f for f in self.edge_ids if f in cands][: n // 4]
         for cls, k in (("fatal", n // 8), ("notice", n // 12), ("clean", n // 6)):
             chosen += [f for f in cands if P.cls[f] == cls and f not in chosen][:k]
         for f in cands:
